@@ -41,6 +41,104 @@ def gen_cases(rng, tier):
     return [c.hex() for c in cases]
 
 
+FIELDS = (('timestamp', 0, 8), ('arg0', 8, 8), ('arg1', 16, 8), ('arg2', 24, 8), ('arg3', 32, 8), ('tid', 40, 8),
+          ('debugid', 48, 4), ('cpuid', 52, 4), ('unused', 56, 8))
+
+
+def parts_of(width):
+    """(name, byte offset inside the field, byte length) of the parts of a little-endian field of `width` bytes."""
+    out = [('whole', 0, width), ('low-byte', 0, 1), ('top-byte', width - 1, 1), ('low-16', 0, 2), ('top-16', width - 2, 2)]
+    if width == 8:
+        out += [('low-32', 0, 4), ('top-32', 4, 4)]
+    return out
+
+
+def gen_coincidences(rng, tier):
+    """Records in which a part of one field EQUALS (as a number) a part of another field: for every unordered pair of the
+    nine fields of the record and every pair of parts (whole field, low / top byte, low / top 16 bits, low / top 32
+    bits), the shared value is written into both parts (zero-extended inside the wider part), the rest of the record
+    is a random, an all-zero or an all-ones background.  A decoder that treats such a record specially (a field
+    'repaired' when it repeats another one, a byte taken for a cpu number, a sentinel comparison between two
+    fields) breaks here and nowhere in walking-bit or random records, where such an equality has probability 2^-8 or less."""
+    out = []
+    rounds = 1 if tier == 'quick' else 6
+    for ia, (na, oa, wa) in enumerate(FIELDS):
+        for nb, ob, wb in FIELDS[ia + 1:]:
+            for pna, poa, pla in parts_of(wa):
+                for pnb, pob, plb in parts_of(wb):
+                    n = min(pla, plb)
+                    vals = [(1 << (8 * n)) - 1]                                    # boundary: all ones of the narrower part
+                    for _ in range(rounds):
+                        vals += [rng.randrange(1, 256), rng.randrange(1, 1 << (8 * n))]   # a small number; any number that fits
+                    for v in vals:
+                        for bg in ('random', 'zero', 'ones'):
+                            r = bytearray(rng.randbytes(64) if bg == 'random' else (b'\x00' if bg == 'zero' else b'\xff') * 64)
+                            r[oa + poa:oa + poa + pla] = v.to_bytes(pla, 'little')
+                            r[ob + pob:ob + pob + plb] = v.to_bytes(plb, 'little')
+                            out.append(bytes(r))
+                    # near-coincidences: one part is the other plus one / its complement / its byte-swap (within the narrower width)
+                    mask = (1 << (8 * n)) - 1
+                    v = rng.randrange(1, mask + 1)
+                    for u in ((v + 1) & mask, v ^ mask, int.from_bytes(v.to_bytes(n, 'little'), 'big')):
+                        r = bytearray(rng.randbytes(64))
+                        r[oa + poa:oa + poa + pla] = v.to_bytes(pla, 'little')
+                        r[ob + pob:ob + pob + plb] = u.to_bytes(plb, 'little')
+                        out.append(bytes(r))
+    return [c.hex() for c in out]
+
+
+def package_constants(rng, tier):
+    """Numbers and byte strings that mean something elsewhere in the package: every int / bytes constant of the modules that
+    read records and dumps (masks, sizes, file magics, chunk tags), and event ids of the bundled code table (with each
+    qualifier), reflected from the package under test."""
+    import importlib
+    from .. import impl  # noqa: F401
+    nums, blobs = set(), set()
+    for mn in ('kevent', 'kd_buf_parser', 'pykdebugparser', 'traces_parser'):
+        try:
+            m = importlib.import_module('pykdebugparser.' + mn)
+        except Exception:
+            continue
+        for k, v in vars(m).items():
+            if k.startswith('__'):
+                continue
+            if isinstance(v, bool):
+                continue
+            if isinstance(v, int) and 0 <= v < (1 << 64):
+                nums.add(v)
+            elif isinstance(v, (bytes, bytearray)) and 0 < len(v) <= 32:
+                blobs.add(bytes(v))
+                if len(v) <= 8:
+                    nums.add(int.from_bytes(v, 'little'))
+                    nums.add(int.from_bytes(v, 'big'))
+    from pykdebugparser.trace_codes import default_trace_codes
+    ids = sorted(default_trace_codes())
+    for i in rng.sample(ids, min(len(ids), 24 if tier == 'quick' else 400)):
+        nums |= {i, i | 1, i | 2, i | 3}
+    return sorted(nums), sorted(blobs)
+
+
+def gen_constants(rng, tier):
+    """Every such number in every field (whole, low / top 32 bits where it fits), every such byte string at every offset
+    where it fits, on a random and on an all-zero background."""
+    nums, blobs = package_constants(rng, tier)
+    out = []
+    for v in nums:
+        for nm, off, w in FIELDS:
+            for pn, po, pl in parts_of(w):
+                if pn in ('whole', 'low-32', 'top-32') and v < (1 << (8 * pl)):
+                    for bg in ('random', 'zero'):
+                        r = bytearray(rng.randbytes(64) if bg == 'random' else bytes(64))
+                        r[off + po:off + po + pl] = v.to_bytes(pl, 'little')
+                        out.append(bytes(r))
+    for b in blobs:
+        for off in range(0, 65 - len(b)):
+            r = bytearray(rng.randbytes(64) if off % 2 else bytes(64))
+            r[off:off + len(b)] = b
+            out.append(bytes(r))
+    return [c.hex() for c in out]
+
+
 def oracle(hexrec, got):
     """The property stated directly on the implementation's answer (independent of the Lean model)."""
     r = bytes.fromhex(hexrec)
@@ -162,6 +260,22 @@ def correspondence(rep, rng, tier):
                 kind_fn=lambda c, got: 'len64' if len(c) == 128 else 'wrong-length',
                 rule='512 walking-one + 512 walking-zero records, per-field all-ones/all-zero patterns, seeded random '
                      'records, wrong lengths 0..63,65,66,127,128; non-trivial = distinct 64-byte records decoded')
+    run_section(rep, 'kevent-coincidences', gen_coincidences(rng, tier),
+                line_fn=lambda c: 'kevent ' + c, impl_fn=impl_fn, oracle_fn=oracle,
+                nontrivial_fn=lambda c, got: got.startswith('ok'),
+                rule='coincidences BETWEEN fields of one record: every unordered pair of the nine fields (timestamp, four '
+                     'argument words, tid, debugid, cpuid, unused) x every pair of parts (whole, low/top byte, low/top 16 bits, '
+                     'low/top 32 bits) holding the same number (all-ones of the narrower part, a number 1..255, any number that '
+                     'fits) on a random, an all-zero and an all-ones background, and near-coincidences (plus one, complement, '
+                     'byte-swapped) on a random background; same oracle as `kevent` (each output field is '
+                     'the little-endian field of the record); non-trivial = distinct records decoded')
+    run_section(rep, 'kevent-constants', gen_constants(rng, tier),
+                line_fn=lambda c: 'kevent ' + c, impl_fn=impl_fn, oracle_fn=oracle,
+                nontrivial_fn=lambda c, got: got.startswith('ok'),
+                rule='fields that hold a value meaningful elsewhere in the package: every int / bytes constant of the record and '
+                     'dump reading modules (masks, sizes, file magics, v3 chunk tags) and event ids of the bundled code table with '
+                     'each qualifier, in every field (whole, low / top 32 bits), byte strings at every offset; random and zero '
+                     'backgrounds; same oracle as `kevent`')
     history_section(rep, rng, tier)
 
 
